@@ -125,11 +125,11 @@ def run(ctx):
                "when the old futex word shows registered waiters, wake_all must be unavoidable (test on the exchange result)")
         # callbacks after the seal; no use after delete
         seal_nodes = [a.node for a in seals]
-        invokes = [n for n in ig.ev_nodes() if n.id in live and n.frame.id == 0 and n.ev["e"] == "call"
+        invokes = [n for n in ig.ev_nodes() if n.id in live and n.frame.owner_id == 0 and n.ev["e"] == "call"
                    and n.ev.get("name") == "operator()" and strip_cast(n.ev.get("this", {})).get("n") == "function"]
         ctx.ob("C08.R1e", inst, bool(invokes) and all(ig.dominated_by(i, seal_nodes) for i in invokes), fn.loc,
                "registered callbacks can run before the list is sealed")
-        for d in [n for n in ig.ev_nodes() if n.id in live and n.frame.id == 0 and n.ev["e"] == "delete"]:
+        for d in [n for n in ig.ev_nodes() if n.id in live and n.frame.owner_id == 0 and n.ev["e"] == "delete"]:
             x = strip_cast(ig.resolve(d.ev["x"], d.frame))
             if isinstance(x, dict) and x.get("k") == "l":
                 bad = L.use_after_release(ig, d, x)
@@ -148,8 +148,8 @@ def run(ctx):
         cas_ids = set(a.node.id for a in cas)
         succ = L.result_edges(ig, cas_ids, True, live)
         fail = L.result_edges(ig, cas_ids, False, live)
-        inline_runs = [n for n in L.call_nodes(ig, name="run_callback", live=live) if n.frame.id == 0]
-        node_runs = [n for n in ig.ev_nodes() if n.id in live and n.frame.id == 0 and n.ev["e"] == "call"
+        inline_runs = [n for n in L.call_nodes(ig, name="run_callback", live=live) if n.frame.owner_id == 0]
+        node_runs = [n for n in ig.ev_nodes() if n.id in live and n.frame.owner_id == 0 and n.ev["e"] == "call"
                      and n.ev.get("name") == "operator()" and strip_cast(n.ev.get("this", {})).get("n") == "function"]
         st = ig.count_on_paths(ig.entry, disp_nodes=inline_runs + node_runs, disp_edges=succ)
         at_exit = st.get(ig.exit.id, frozenset())
@@ -169,7 +169,7 @@ def run(ctx):
                 ctx.ob("C08.R2c", "%s@%s" % (inst, a.node.line), A.releases(a.order) and A.acquires(a.fail_order),
                        a.node.where, "registration CAS must release the node on success and acquire on failure "
                        "(it may observe SEALED): %s/%s" % (A.ORDER_NAME.get(a.order), A.ORDER_NAME.get(a.fail_order)))
-        dels = [n for n in ig.ev_nodes() if n.id in live and n.frame.id == 0 and n.ev["e"] == "delete"]
+        dels = [n for n in ig.ev_nodes() if n.id in live and n.frame.owner_id == 0 and n.ev["e"] == "delete"]
         rs = ig.reach([ig.entry], removed_edges=fail)
         for d in dels:
             ctx.ob("C08.R2d", inst, d.id not in rs and ig.dominated_by(d, node_runs), d.where,
@@ -178,7 +178,7 @@ def run(ctx):
         for a in cas:
             exp = ig.rarg(a.node, 0)
             links = []
-            for n in ig.ev_nodes(lambda n: n.id in live and n.ev["e"] == "asg" and n.frame.id == 0):
+            for n in ig.ev_nodes(lambda n: n.id in live and n.ev["e"] == "asg" and n.frame.owner_id == 0):
                 lhs = strip_cast(n.ev.get("lhs"))
                 if isinstance(lhs, dict) and lhs.get("k") == "f" and lhs.get("n") == "next":
                     if pstr(ig.resolve(n.ev["rhs"], n.frame)) == pstr(exp):
